@@ -427,6 +427,8 @@ func runC17(r *Run) {
 	en := p.Roots()["end"]
 	reach, _ := p.Reach(en)
 	r.Check(reach[p.MustFn("(*vm.CommitStateDB).Reset")], "C17.cache", fname(en), "EndBlock resets the state adapter", "stateDB.Reset reachable from the block ender", "the adapter's per-block state (logs, bloom, counters) survives the block", p.pos(en.Pos()))
+	checkRefundOrder(r)
+	checkLedgerFullWidth(r)
 	r.Floor("C17.", 16)
 }
 
